@@ -14,3 +14,4 @@ else
 fi
 cd /verif
 VERIF_REPO="$D" VERIF_EVIDENCE_DIR="$D/evidence" VERIF_BUILD_DIR="$D/build" ./check "$@" || true
+if [ -n "$SHOW" ]; then for r in "$D"/evidence/replay/*.json; do [ -f "$r" ] && python3 -c "import json,sys; r=json.load(open(sys.argv[1])); print('REPLAY violation:', json.dumps(r.get('violation'))[:1500]); print('REPLAY broken:', [(b['phase'], str(b['name'])) for b in r.get('broken', [])][:8])" "$r"; done; fi
